@@ -408,7 +408,9 @@ static void after_call(struct ep *x, int call, int kind, int err)
         }
         /* a raw TLS peer that dies without close_notify has not "closed" at the TLS level: no drain is owed */
         if (call == C_RECV && !(x->peer_raw && g_tls) && !drained(x)) {
-            snprintf(sig, sizeof sig, "C06/eof-before-queued-message/tp=%s", g_tp);
+            /* was a frame of this endpoint still waiting to be written (internal flush) or was its writer idle? */
+            int pending = g_bs ? 0 : x->out->n_off > x->out->n_complete;
+            snprintf(sig, sizeof sig, "C06/eof-before-queued-message/writer=%s/tp=%s", pending ? "pending-frame" : "idle", g_tp);
             if (g_bs)
                 viol(sig, "%s: the peer wrote %lld bytes and closed; xcm_receive reported the end (%s) after only %lld bytes, "
                      "before any send/finish had reported the close", x->name, (long long)x->in->b_complete, res,
